@@ -34,11 +34,12 @@ class _Rec:
         xyz += 1.0
 
 
-def _traj(edges):
+def _traj(edges, mono=False):
     top = Topology()
     ch = top.add_chain()
     r = top.add_residue("MOL", ch)
-    atoms = [top.add_atom("C%d" % i, _el.carbon, r) for i in range(4)]
+    # mono: every atom its own residue (C-alpha-only / coarse-grained chains)
+    atoms = [top.add_atom("C%d" % i, _el.carbon, top.add_residue("BD%d" % i, ch) if mono else r) for i in range(4)]
     r2 = top.add_residue("NA", ch)
     atoms.append(top.add_atom("NA", _el.sodium, r2))
     for on, (i, j) in zip(edges, EDGES):
@@ -157,3 +158,77 @@ def wrappers(api: int, inplace: bool, make_whole: bool, explicit: bool, e0: bool
             if [molof[i] == molof[j] for i in range(5) for j in range(i)] != comp:
                 return False
     return True
+
+
+def other_molecules_default(e0: bool, e1: bool, e3: bool, e5: bool, mono: bool, make_whole: bool) -> bool:
+    """
+    post: __return__
+    """
+    # explicit anchors, other_molecules left to the library: every connected component of the bond graph that is not an anchor must be
+    # handed over as ONE molecule (also when every residue is a single atom), single atoms as molecules of their own
+    edges = (e0, e1, False, e3, False, e5)
+    t = _traj(edges, mono)
+    atoms = list(t.topology.atoms)
+    if not any(edges):
+        return True                      # bond-less topologies are refused by find_molecules (documented)
+    rec = _Rec()
+    _tr._geometry = rec
+    comp = _components([(i, j) for on, (i, j) in zip(edges, EDGES) if on], 5)
+    lab = {}
+    k = 0
+    for i in range(5):
+        for j in range(i):
+            if comp[i * (i - 1) // 2 + j]:
+                lab[i] = lab[j]
+                break
+        else:
+            lab[i] = k
+            k += 1
+    anchor = {a for a in atoms if lab[a.index] == lab[0]}
+    t.image_molecules(inplace=False, anchor_molecules=[anchor], make_whole=make_whole)
+    if len(rec.calls) != 1:
+        return False
+    anchors, others = rec.calls[0][4], rec.calls[0][5]
+    if sorted(map(sorted, anchors)) != [sorted(a.index for a in anchor)]:
+        return False
+    want = {}
+    for i in range(5):
+        if lab[i] != lab[0]:
+            want.setdefault(lab[i], []).append(i)
+    return sorted(map(sorted, others)) == sorted(want.values())
+
+
+def bond_order_after_edit(e0: bool, e3: bool, e5: bool, new: int, via_slice: bool) -> bool:
+    """
+    pre: 0 <= new <= 5
+    post: __return__
+    """
+    # history: re-image once, change the bond graph IN PLACE (add a bond / atom_slice(inplace=True)), re-image again:
+    # the second call must walk the CURRENT graph
+    from vtlib.xhfix import conc
+    new = conc(new, 0, 5)
+    edges = [e0, False, False, e3, False, e5]
+    t = _traj(tuple(edges))
+    rec = _Rec()
+    _tr._geometry = rec
+    t.make_molecules_whole(inplace=True)
+    atoms = list(t.topology.atoms)
+    if via_slice:
+        t.atom_slice([0, 1, 2, 3], inplace=True)
+        n = 4
+        cur = sorted((i, j) for on, (i, j) in zip(edges, EDGES) if on)
+    else:
+        i, j = EDGES[new]
+        if not edges[new]:
+            t.topology.add_bond(atoms[i], atoms[j])
+            edges[new] = True
+        n = 5
+        cur = sorted((i, j) for on, (i, j) in zip(edges, EDGES) if on)
+    t.make_molecules_whole(inplace=True)
+    if len(rec.calls) != 2:
+        return False
+    sb = rec.calls[1][3]
+    got = [] if sb is None else [tuple(int(v) for v in row) for row in sb]
+    if any(tuple(sorted(p)) not in cur for p in got):
+        return False
+    return _components(got, n) == _components(cur, n) and _assembles(got, n)
